@@ -36,6 +36,23 @@ def histories(rng, sc, ncases, nprefix):
     return hs
 
 
+def failing_extractions(rng, sc):
+    """extract operations that fail half-way for reasons of the file system, not of memory: a dangerous link whose placeholder cannot
+    be created (its directory was never extracted), a file or link below a directory that was skipped - whatever the operation had taken by then must still be released"""
+    hs = []
+    cases = [
+        ([RG.G("dir", b"nodir"), RG.G("link", b"nodir/link", target=b"../outside", level=2), RG.G("file", b"hello.txt", data=b"hi")], ["N", "N", "X", "N", "X", "N", "N"]),
+        ([RG.G("dir", b"skipped"), RG.G("file", b"skipped/f", data=b"data"), RG.G("link", b"skipped/s", target=b"t", level=1)], ["N", "N", "X", "N", "X", "N"]),
+        ([RG.G("link", b"a/b/c", target=b"../../../up", level=2), RG.G("link", b"l2", target=b"/abs", level=1)], ["N", "X", "N", "X", "N", "X", "N", "X", "N"]),
+    ]
+    for ci, (ms, ops) in enumerate(cases):
+        for pol in POLICIES:
+            a, g = RG.write_case(sc, "fx%d%s" % (ci, pol), ms, pol)
+            for cut in sorted(set([len(ops), 3, 4])):
+                hs.append((g, a, pol, ops[:cut], ["path", "cb"][ci % 2]))
+    return hs
+
+
 def shape_histories(rng, sc, tier, drv):
     """archives that vary the *header* rather than the call history: every sequence of up to two (thorough: three) extended
     header types - repeats included, so a second file name / path / user / group header replaces a value already stored -
@@ -98,6 +115,7 @@ def run(tier, seed, ev):
         mc = ex.submit(V.tlc_must_pass, "MC_Reader", "MC_Reader_c20" if tier == "quick" else "MC_Reader_c20_t", workers=8, xmx="12g", timeout=2400)
         drv = V.build_driver("reader_drv", "san", wrap=True)
         hs = histories(rng, sc, 40 if tier == "quick" else 400, 2 if tier == "quick" else 6)
+        hs += failing_extractions(rng, sc)
         nhist = len(hs)
         hs += shape_histories(rng, sc, tier, drv)
         ev.set("header_shape_archives", len(hs) - nhist)
